@@ -8,6 +8,7 @@ package main
 
 import (
 	"fmt"
+	"regexp"
 	"go/token"
 	"go/types"
 	"strings"
@@ -392,6 +393,9 @@ func (fr *Frame) applyContract(ct *Contract, sig *types.Signature, names []strin
 	}
 	bindResults(vc, post, sig, ct.Results, res)
 	for _, en := range ct.Ensures {
+		if mentionsGhostVar(ct, en.Src) {
+			continue // stated over the callee's own ghost variables: internal to its proof
+		}
 		vc.assume(fr.curR, post.evalAssume(en.E).T())
 	}
 	for _, en := range ct.Defines {
@@ -1049,4 +1053,13 @@ func (vc *VC) pureResult(key string, h *Heap, args []Val, rt types.Type) Val {
 		out.L = append(out.L, "("+f+" "+joinSp(as)+")")
 	}
 	return out
+}
+
+func mentionsGhostVar(ct *Contract, src string) bool {
+	for _, gv := range ct.GhostVars {
+		if regexp.MustCompile(`\b` + regexp.QuoteMeta(gv.Name) + `\b`).MatchString(src) {
+			return true
+		}
+	}
+	return false
 }
